@@ -523,6 +523,16 @@ def _text_partitions(rows, comp, enabled):
             continue
         key = "n:" + "+".join(names)
         if all(key in t for t in recs) and len(set(t[key] for t in recs)) == 1:
+            if "set_order" in names:
+                # D6 explains differences between HOSTS only: the arms of one host must already agree without it
+                base_key = "n:code_repr" if "code_repr" in names else "d"
+                per_host = {}
+                for host, arm, native, cv, r in rows:
+                    t = (r.get("texts") or {}).get(fmt)
+                    if t is not None:
+                        per_host.setdefault(host, set()).add(t.get(base_key))
+                if any(len(v) > 1 for v in per_host.values()):
+                    continue
             return True, names
     return True, None
 
